@@ -243,7 +243,7 @@ func Build(r *Recipe) (u *Universe, err error) {
 		}
 		u.ByHash[b.Hash()] = id
 		if n, err := u.O.InsertChain(types.Blocks{b}); err != nil {
-			return nil, fmt.Errorf("oracle node rejected generated block %d (#%d) at %d: %v", id, b.NumberU64(), n, err)
+			return nil, fmt.Errorf("%w %d (#%d) at %d: %v", ErrOracleRejected, id, b.NumberU64(), n, err)
 		}
 	}
 	return u, nil
